@@ -206,22 +206,22 @@ def run_history(res, c, scratch, rng):
                 if c["flush"] and out.exc is None and tout.exc is None:
                     if not compare(dict(op, then="checked before any further call")):
                         return
-                try:
-                    post = s.contents() if c["flush"] else None
-                except Exception as e:
-                    res.violate(Violation(
-                        "C04", "database-cannot-read-its-own-file",
-                        {"config": label, "after": op if "q" not in op else dict(op, q=qast.show(op["q"])), "exc": f"{type(e).__name__}: {e}"[:300]},
-                        replay={"cfg": cfg, "ops": list(s.log)},
-                        features={"flush": c["flush"], "encoding": c["encoding"], "op": op["op"], "dialect": repr(c["csv"])},
-                    ))
-                    return
                 res.seen((label, tuple(p.canon() for p in s.model.points)))
                 # a read that stops early leaves the file position somewhere in the middle
                 if rng.random() < 0.5 and s.model.points:
                     q = targeted_query(rng, s.model, {})
-                    s.do({"op": rng.choice(["get", "contains"]), "q": q})
+                    rout = s.do({"op": rng.choice(["get", "contains", "count"]), "q": q})
                     res.count("early_terminating_reads")
+                    if rout.exc is not None:
+                        res.violate(Violation(
+                            "C04", "database-cannot-read-its-own-file",
+                            {"config": label, "after": op if "q" not in op else dict(op, q=qast.show(op["q"])), "exc": f"{type(rout.exc).__name__}: {rout.exc}"[:300]},
+                            replay={"cfg": cfg, "ops": list(s.log)},
+                            features={"flush": c["flush"], "encoding": c["encoding"], "op": op["op"], "dialect": repr(c["csv"])},
+                        ))
+                        return
+                else:
+                    res.count("writes_directly_after_writes")
                 if c["flush"]:
                     if not compare(op):
                         return
